@@ -1,6 +1,7 @@
 /-
   C10 — Header loading accepts exactly magic- and checksum-valid headers.
 -/
+import Mb2.Props.FnsTblHdr
 import Mb2.Props.FnsLinked
 import Mb2.Props.FnsGetters
 import Mb2.Props.FnsBytesRef
